@@ -205,7 +205,7 @@ func (b *Box) maybeGC() {
 
 	epochsAfterWhichWeGC := b.GCExpire / b.GCSweep
 
-	if time.Duration(now-lastGC) > epochsAfterWhichWeGC {
+	if time.Duration(now-lastGC) < epochsAfterWhichWeGC {
 		return
 	}
 
